@@ -38,6 +38,9 @@ PROPS = {
     "C13": ("storewalk", 16, 600, 3600),
     "C05": ("crashwalk", 16, 600, 3600),
     "C17": ("crashwalk", 16, 600, 3600),
+    "C19": ("domwalk", 16, 300, 7200),
+    "C20": ("domwalk", 8, 300, 600),
+    "C14": ("domwalk", 16, 600, 3600),
     "C12": ("apiwalk", 12, 600, 3600),
     "C09": ("apiwalk", 8, 600, 3600),
     "C10": ("apiwalk", 8, 600, 3600),
@@ -45,7 +48,7 @@ PROPS = {
 }
 
 LEVEL = "model_checking"
-LEVELS = {"C05": "fault_enumeration", "C17": "fault_enumeration"}
+LEVELS = {"C05": "fault_enumeration", "C17": "fault_enumeration", "C19": "exploration", "C20": "exploration", "C14": "exploration"}
 
 
 def log(*a):
@@ -141,8 +144,21 @@ def run_shards(binary, prop, tier, nshards, deadline, seed, replay=None, extra_e
         logf.close()
         rp = os.path.join(outdir, "shard%d.json" % i)
         if rc != 0 or not os.path.exists(rp):
-            tail = open(os.path.join(outdir, "shard%d.log" % i)).read()[-3000:]
-            errors.append("shard %d exit %d: %s" % (i, rc, tail))
+            tail = open(os.path.join(outdir, "shard%d.log" % i)).read()
+            prog = rp + ".progress"
+            fatal = re.search(r"fatal error: [^\n]*|panic: [^\n]*", tail)
+            if os.path.exists(prog) and fatal:
+                # the code under test killed the process (out of memory, unrecoverable panic)
+                # while working on the case named in the progress file: that is a violation of the
+                # property, not a failure of the harness
+                case = open(prog).read().strip()
+                m = re.search(r"class=(\S+) kind=(\S+)", case)
+                kind = "fatal/%s/%s" % ((m.group(2), m.group(1)) if m else ("?", "?"))
+                reports.append({"violations": [{"property": prop, "kind": kind, "what": "the process died (%s) while handling: %s" % (fatal.group(0), case),
+                                                "replay": {"engine": "progress-file", "case": case}, "observed": tail[-1500:]}],
+                                "violation_counts": {kind: 1}, "exhaustive": False, "caps_hit": ["shard %d died" % i]})
+                continue
+            errors.append("shard %d exit %d: %s" % (i, rc, tail[-3000:]))
             continue
         reports.append(json.load(open(rp)))
     return reports, errors
